@@ -51,7 +51,7 @@ func c02OnlyRequestLevel(ds []c02Defect) bool {
 func (s *c02State) planAndRender(leg c02Leg, nonce string, defects []c02Defect, scope string, clientID string) (*c02Request, c02Rendered, []string) {
 	c := s.c
 	layout := c.Layout
-	useWallet := layout == "wallet" && c02OnlyRequestLevel(defects)
+	useWallet := layout == "wallet" && c.Window == 0 && c02OnlyRequestLevel(defects)
 	r := c02Honest(c, leg.PD, leg.Signer, s.fx.issuer, nonce, layout, &s.seq)
 	r.Scope = c02Ptr(scope)
 	r.ClientID = c02Ptr(clientID)
@@ -60,6 +60,10 @@ func (s *c02State) planAndRender(leg c02Leg, nonce string, defects []c02Defect, 
 		for _, d := range defects {
 			if d.Name == name && c02ApplyPresentationDefect(c, r, d, s.fx.issuer) {
 				realised = append(realised, d.Name)
+				if d.Name == "validity_long" {
+					w := c02LongWindows[d.Arg%len(c02LongWindows)]
+					s.x.Classf("validity_long:created%+ds,expires%+ds,iat-only=%v", int(w.created.Seconds()), int(w.expires.Seconds()), w.iatOnly)
+				}
 			}
 		}
 	}
@@ -495,6 +499,7 @@ func c02Run(x *h.Ctx, c c02Case) {
 	x.Class("vp:" + c.VPFmt)
 	x.Class("vc:" + c.VCFmt)
 	x.Class("layout:" + c.Layout)
+	x.Classf("window:%d", c.Window)
 	sc := s.scope()
 	switch {
 	case sc.Org != nil && sc.User != nil:
